@@ -121,3 +121,41 @@ Proof.
   intro H. rewrite split_app, split_prefix_all, (split_unprefixed p hdr H).
   cbn [fst snd]. rewrite app_nil_r. reflexivity.
 Qed.
+
+(* ---- ResponseTrailer over repeated Receive calls at the end of a stream ----
+   A streaming client conn merges the trailers the stream carried (HTTP trailers,
+   the gRPC-Web trailer block, the Connect end-of-stream metadata) into the map
+   ResponseTrailer returns, on a Receive that yields no message. A caller may
+   call Receive again afterwards (it keeps reporting the end). The merge is
+   guarded by a flag and happens once [client_trailers_merged_once, extracted by
+   the translator from grpcClientConn.Receive and
+   connectStreamingClientConn.Receive; were it false, every failing Receive would
+   merge again]. *)
+Definition failing_receive (carried : hmap) (st : hmap * bool) : hmap * bool :=
+  let '(visible, merged) := st in
+  if client_trailers_merged_once && merged then (visible, true)
+  else (merge visible carried, true).
+
+Fixpoint failing_receives (n : nat) (carried : hmap) (st : hmap * bool) : hmap * bool :=
+  match n with
+  | O => st
+  | S n' => failing_receives n' carried (failing_receive carried st)
+  end.
+
+Lemma failing_receive_idempotent : forall carried st,
+  snd st = true -> failing_receive carried st = st.
+Proof. intros carried [v m] H. cbn in H. subst m. reflexivity. Qed.
+
+(* after any number n >= 1 of failing Receive calls the visible trailers are the
+   carried ones, each value once *)
+Lemma trailers_merged_once_lemma : forall n carried,
+  failing_receives (S n) carried ([], false) = (carried, true).
+Proof.
+  intros n carried. cbn [failing_receives failing_receive]. cbn [andb merge app].
+  induction n as [|n IH]; [reflexivity|].
+  cbn [failing_receives]. rewrite failing_receive_idempotent by reflexivity. exact IH.
+Qed.
+
+Lemma trailer_values_stable_lemma : forall n carried k,
+  values k (fst (failing_receives (S n) carried ([], false))) = values k carried.
+Proof. intros. rewrite trailers_merged_once_lemma. reflexivity. Qed.
